@@ -58,6 +58,10 @@ pub struct Sc {
     /// a second time test in the same expression (conjunction), on the settable timestamps only
     #[serde(default)]
     pub second: Option<Test>,
+    /// -H / -L before the starting point, or -follow in the expression (no link is involved:
+    /// the tests must not change meaning with the follow mode)
+    #[serde(default)]
+    pub follow: Option<String>,
 }
 
 /// Set `which` ('a' or 'm') of `file` (None = the reference file) to the real
@@ -111,11 +115,13 @@ impl Property for C15 {
                 }
                 let minutes = rng.chance(1, 2);
                 let period = if minutes { 60 } else { DAY };
-                let k = match rng.weighted(&[3, 3, 3, 1]) {
+                let k = match rng.weighted(&[6, 6, 6, 2, 1]) {
                     0 => 0,
                     1 => rng.irange(1, 3),
                     2 => rng.irange(4, 400),
-                    _ => rng.irange(400, 20_000),
+                    3 => rng.irange(400, 20_000),
+                    // timestamps before 1970 (the clock is near 2090)
+                    _ => if minutes { rng.irange(63_000_000, 90_000_000) } else { rng.irange(44_000, 60_000) },
                 };
                 let n = (k + rng.irange(-1, 1)).max(0) as u64;
                 let cmp = *rng.pick(&['=', '+', '-']);
@@ -245,6 +251,7 @@ impl Property for C15 {
             now_rel_ctime,
             placements,
             second,
+            follow: if rng.chance(1, 5) { Some(rng.pick(&["-H", "-L", "-follow"]).to_string()) } else { None },
         }
     }
 
@@ -425,6 +432,9 @@ impl Property for C15 {
         if sc.second.is_some() {
             rep.probe("two_time_tests_in_one_expression");
         }
+        if stamps.iter().any(|t| t.0 < 0 || t.2 < 0) {
+            rep.probe("timestamp_before_the_epoch");
+        }
         match &sc.test {
             Test::Age { which: 'c', .. } => rep.probe("ctime_test_clock_relative_to_real_ctime"),
             Test::NewerXY { x, y } if x != y => rep.probe("newerXY_with_X_different_from_Y"),
@@ -460,7 +470,18 @@ impl Property for C15 {
                 }
             }
         }
-        let mut argv = vec!["d".to_string(), "-type".into(), "f".into()];
+        let mut argv = vec![];
+        match sc.follow.as_deref() {
+            Some(f @ ("-H" | "-L")) => argv.push(f.to_string()),
+            _ => {}
+        }
+        argv.extend(["d".to_string(), "-type".into(), "f".into()]);
+        if sc.follow.as_deref() == Some("-follow") {
+            argv.push("-follow".into());
+        }
+        if sc.follow.is_some() {
+            rep.probe("follow_mode_in_effect");
+        }
         argv.extend(sc.test.args());
         if let Some(t2) = &sc.second {
             argv.extend(t2.args());
@@ -526,6 +547,11 @@ impl Property for C15 {
         if sc.second.is_some() {
             let mut s = sc.clone();
             s.second = None;
+            out.push(s);
+        }
+        if sc.follow.is_some() {
+            let mut s = sc.clone();
+            s.follow = None;
             out.push(s);
         }
         if sc.files.len() > 1 {
